@@ -31,6 +31,7 @@ pub fn spec_oracle(name: &str, arg: &str) -> String {
             }
         }
         "shs" => hexs(&host_from_token(arg).to_string()),
+        "idna" => url_oracle("idna", arg),
         _ => panic!("unknown oracle {}", name),
     }
 }
